@@ -25,10 +25,10 @@ WORLD_INFO = {'real': ['ControlConnection._refresh_node_list_and_token_map/_is_v
                        'Cluster.add_host/remove_host/on_add/on_remove, Metadata.rebuild_token_map/add_or_return_host, TokenMap'],
               'stub': ['libev C binding', 'sockets/TCP', 'ThreadPoolExecutor', 'fake nodes serving system.local/peers/peers_v2 (independent codec)']}
 ASSUMPTIONS = ['the control node (node 0) never leaves', 'tokens are Murmur3 integers given as strings, as Cassandra stores them']
-REQUIRED_PROBES = ['peer_added', 'peer_removed', 'replace_in_one_snapshot', 'location_changed', 'tokens_changed_only', 'invalid_row',
+REQUIRED_PROBES = ['removed_event_for_listed_peer', 'peer_added', 'peer_removed', 'replace_in_one_snapshot', 'location_changed', 'tokens_changed_only', 'invalid_row',
                    'duplicate_endpoint', 'event_driven_refresh', 'concurrent_refreshes']
 
-KINDS = ['add', 'add', 'remove', 'replace', 'move', 'retoken', 'invalidate', 'fix', 'duplicate']
+KINDS = ['add', 'add', 'remove', 'replace', 'move', 'retoken', 'invalidate', 'fix', 'duplicate', 'false_removed']
 
 
 def prepare():
@@ -77,6 +77,10 @@ def gen_plan(rng, tier):
             st['node'] = rng.choice(inn)
         elif kind == 'duplicate' and inn:
             st['node'] = rng.choice(inn)
+        elif kind == 'false_removed' and inn:
+            # gossip announces REMOVED_NODE for a peer that the system tables still list (decommission not finished, or a stale event)
+            st['node'] = rng.choice(inn)
+            st['via'] = 'event'
         else:
             continue
         steps.append(st)
@@ -206,6 +210,19 @@ def run_plan(plan, seed, choices=None):
             V.add('C42/token-map', 'token-map-stale:' + only,
                   'after %s: token map has %d tokens for %r, snapshot has %d tokens for %r'
                   % (label, len(have), sorted(set(have.values())), len(want), sorted(set(want.values()))))
+        elif tm is not None and known == exp:
+            # rebuilt means rebuilt from the hosts the metadata holds now: an owner that is a Host object the metadata no longer knows
+            # (the endpoint was removed and added again) is a token map that was not rebuilt after a membership change
+            current = dict((str(x.endpoint.address), x) for x in cluster.metadata.all_hosts())
+            stale = sorted(set(str(h.endpoint.address) for h in tm.token_to_host_owner.values()
+                               if current.get(str(h.endpoint.address)) is not h))
+            if stale:
+                V.add('C42/token-map', 'token-map-stale:owner-is-a-host-object-no-longer-in-metadata',
+                      'after %s: the token map still maps tokens to the Host object(s) of %r that were removed from the metadata (is_up %r); '
+                      'the metadata now holds other Host objects for those endpoints'
+                      % (label, stale, [h.is_up for h in tm.token_to_host_owner.values() if str(h.endpoint.address) in stale][:3]))
+            else:
+                sim.probe('token_map_owners_current')
         V.check('C42/location')
         for n in fc.members:
             if n is ctrl or valid(n.idx):
@@ -237,6 +254,12 @@ def run_plan(plan, seed, choices=None):
             mark = sim.nlog
             apply(stp)
             after_members = expected_hosts()
+            if stp['kind'] == 'false_removed':
+                sim.probe('removed_event_for_listed_peer')
+                ctrl.push_event('TOPOLOGY_CHANGE', 'REMOVED_NODE', fc.nodes[stp['node']].addr, 9042)
+                w.sleep(1.5)
+                check('step %d (REMOVED_NODE event for %s, still listed in the peers table)' % (k, fc.nodes[stp['node']].addr), {'membership': True})
+                continue
             if stp['via'] == 'event' and stp['kind'] in ('add', 'remove'):
                 sim.probe('event_driven_refresh')
                 node = fc.nodes[stp['node']]
